@@ -191,6 +191,265 @@ def lean_str(s):
     return '"' + s.replace("\\", "\\\\").replace('"', '\\"') + '"'
 
 
+# ---------------------------------------------------------------------------------------------
+# `IpaHttpServer::start_on`: which service and which server each `(disable_https, listener)` arm
+# hands to `spawn_server`. The function body is interpreted abstractly: a *service* value is the
+# router (`self.router`) under `.clone()`, `.layer(TraceLayer…)`, `.into_make_service()` and
+# `.layer(layer_fn(SetClientIdentityFromHeader::<_, F>::new))` — the last one sets `header`; a
+# *server* value is `axum_server::{from_tcp, bind}` (plain) or `axum_server::{from_tcp_rustls,
+# bind_rustls}(..).map(|a| ClientCertRecognizingAcceptor::new(a, ..))` (tls). `let` bindings (with
+# shadowing) before the `match` and inside the arms are followed, so it does not matter whether the
+# header wrapping is written in the arm or once up front.
+HEADER_LAYER = re.compile(r"layer_fn\(SetClientIdentityFromHeader::<_,F>::new\)$")
+COMBOS = [(True, True), (True, False), (False, True), (False, False)]
+
+
+def stmt_end(t, i):
+    """index of the `;` ending the statement that starts at i (depth 0), or len(t)"""
+    depth = 0
+    while i < len(t):
+        ch = t[i]
+        if ch in "([{":
+            depth += 1
+        elif ch in ")]}":
+            depth -= 1
+            if depth < 0:
+                return i
+        elif ch == ";" and depth == 0:
+            return i
+        i += 1
+    return i
+
+
+def top_level_lets(t):
+    """[(name, expr)] for `let [mut] name[: T] = expr;` at brace depth 0 of t, in order"""
+    out, depth, i = [], 0, 0
+    while i < len(t):
+        ch = t[i]
+        if ch in "([{":
+            depth += 1
+        elif ch in ")]}":
+            depth -= 1
+        elif depth == 0 and t.startswith("let ", i) and (i == 0 or not (t[i - 1].isalnum() or t[i - 1] == "_")):
+            m = re.match(r"let\s+(?:mut\s+)?(\w+)\s*(?::[^=;]+)?=(?!=)", t[i:])
+            if m:
+                e = stmt_end(t, i + m.end())
+                out.append((m.group(1), t[i + m.end():e].strip()))
+                i = e
+                continue
+        i += 1
+    return out
+
+
+def chain(expr):
+    """`root.m1(a1).m2(a2).await` -> (root, [(m, arg)])"""
+    expr = expr.strip()
+    m = re.match(r"(self\.router|axum_server::\w+\s*\(|\w+)", expr)
+    if not m:
+        raise Bad("unsupported expression " + expr[:60])
+    root = m.group(1)
+    pos = m.end()
+    rootarg = None
+    if root.startswith("axum_server::"):
+        e = paren_end(expr, pos - 1)
+        rootarg = expr[pos:e]
+        root = re.sub(r"\s*\($", "", root)
+        pos = e + 1
+    calls = []
+    while True:
+        rest = expr[pos:]
+        mm = re.match(r"\s*\.\s*await\b", rest)
+        if mm:
+            pos += mm.end()
+            calls.append(("await", ""))
+            continue
+        mm = re.match(r"\s*\.\s*(\w+)\s*(?:::<[^>]*>)?\s*\(", rest)
+        if not mm:
+            if rest.strip():
+                raise Bad("unsupported expression tail " + rest.strip()[:60])
+            return root, rootarg, calls
+        e = paren_end(expr, pos + mm.end() - 1)
+        calls.append((mm.group(1), expr[pos + mm.end():e]))
+        pos = e + 1
+
+
+def eval_value(expr, env):
+    """abstract value of expr: ('svc', header) | ('server', tls) | None (something else)"""
+    try:
+        root, rootarg, calls = chain(expr)
+    except Bad:
+        if re.search(r"SetClientIdentityFromHeader|ClientCertRecognizingAcceptor|axum_server::|into_make_service|self\.router", expr):
+            raise
+        return None
+    if root == "self.router":
+        val = ("svc", False)
+    elif root.startswith("axum_server::"):
+        ctor = root.split("::")[1]
+        if ctor in ("from_tcp", "bind"):
+            val = ("server", "plain", ctor)
+        elif ctor in ("from_tcp_rustls", "bind_rustls"):
+            val = ("server", "rustls-unrecognising", ctor)
+        else:
+            raise Bad("unknown axum_server constructor " + ctor)
+    elif root in env and env[root] is not None:
+        val = env[root]
+    else:
+        if re.search(r"SetClientIdentityFromHeader|ClientCertRecognizingAcceptor", expr):
+            raise Bad("identity layer used in an expression that is not understood: " + expr[:80])
+        return None
+    for name, arg in calls:
+        a = re.sub(r"\s+", "", arg)
+        if val[0] == "svc":
+            if name in ("clone", "into_make_service") and a == "":
+                continue
+            if name == "layer":
+                if HEADER_LAYER.match(a):
+                    val = ("svc", True)
+                    continue
+                if a.startswith("TraceLayer::new_for_http()"):
+                    continue
+                raise Bad("unknown layer around the router in start_on: " + arg.strip()[:80])
+            raise Bad(f"unknown operation .{name}() on the router service in start_on")
+        else:
+            if name == "map" and re.fullmatch(r"\|(\w+)\|\{?ClientCertRecognizingAcceptor::new\(\1,self\.network_config\.clone\(\)\)\}?", a):
+                if val[1] == "plain":
+                    raise Bad("ClientCertRecognizingAcceptor over a plain TCP server")
+                val = ("server", "tls", val[2])
+                continue
+            raise Bad(f"unknown operation .{name}() on the axum server in start_on")
+    return val
+
+
+def tls_setup(t):
+    """`rustls_config`: trust anchors = the peers' certificates, client authentication optional,
+    verifier installed. -> (dict, [why])"""
+    why = []
+    val = {"anchors_from_peers": True, "client_auth_optional": True, "verifier_installed": True, "recognised": False}
+    try:
+        m = re.search(r"async fn rustls_config\s*\(", t)
+        if not m:
+            raise Bad("fn rustls_config not found")
+        pe = paren_end(t, m.end() - 1)
+        params = re.sub(r"\s+", "", t[m.end():pe])
+        if params.rstrip(",") != "config:&ServerConfig,certs:Vec<PeerConfig>":
+            raise Bad("unexpected parameters of rustls_config: " + params[:80])
+        b0 = t.index("{", pe)
+        body = t[b0 + 1:paren_end(t, b0, "{", "}")]
+        flat = re.sub(r"\s+", "", body)
+        anchors = ("letmuttrusted_certs=RootCertStore::empty();" in flat
+                   and "forcertincerts.into_iter().filter_map(|peer|peer.certificate){trusted_certs.add(cert)?;}" in flat
+                   and len(re.findall(r"trusted_certs\.", flat)) == 2          # the one `.add` and the `.into()`
+                   and len(re.findall(r"RootCertStore", flat)) == 1)
+        vm = re.search(r"letclient_verifier=WebPkiClientVerifier::builder_with_provider\(trusted_certs\.into\(\),Arc::clone\(&CRYPTO_PROVIDER\),?\)((?:\.\w+\((?:\"[^\"]*\")?\))*);", flat)
+        if not vm:
+            raise Bad("client verifier is not WebPkiClientVerifier::builder_with_provider(trusted_certs.into(), ..)")
+        calls = re.findall(r"\.(\w+)\(", vm.group(1))
+        if [c for c in calls if c not in ("allow_unauthenticated", "build", "expect")]:
+            raise Bad("unknown option on the client verifier builder: " + vm.group(1)[:80])
+        optional = "allow_unauthenticated" in calls
+        installed = (len(re.findall(r"\.with_client_cert_verifier\(client_verifier\)", flat)) == 1
+                     and "with_no_client_auth" not in flat
+                     and len(re.findall(r"client_verifier", flat)) == 2
+                     and len(re.findall(r"ServerConfig::builder", flat)) == 1)
+        if len(re.findall(r"ClientCertVerifier|dangerous\(\)", flat)) > 0:
+            raise Bad("custom certificate verifier in rustls_config")
+        val = {"anchors_from_peers": anchors, "client_auth_optional": optional, "verifier_installed": installed, "recognised": True}
+    except (Bad, ValueError) as ex:
+        why.append(str(ex))
+    return val, why
+
+
+def start_on_arms(t):
+    """-> (arms for the four combos, [reasons why something was not recognised], number of
+    `SetClientIdentityFromHeader` occurrences understood)"""
+    why = []
+    found = {}
+    n_header_src = 0
+    n_header_seen = [0]
+    try:
+        m = re.search(r"pub async fn start_on\b", t)
+        if not m:
+            raise Bad("IpaHttpServer::start_on not found")
+        b0 = t.index("{", t.index("->", m.end()))
+        b1 = paren_end(t, b0, "{", "}")
+        body = t[b0 + 1:b1]
+        n_header_src = len(re.findall(r"SetClientIdentityFromHeader", body))
+        mm = re.search(r"match \(self\.config\.disable_https, listener\)\s*\{", body)
+        if not mm:
+            raise Bad("match (self.config.disable_https, listener) not found in start_on")
+        env = {}
+
+        def bind(lets, env):
+            for name, expr in lets:
+                n_header_seen[0] += len(re.findall(r"SetClientIdentityFromHeader", expr))
+                env[name] = eval_value(expr, env)
+
+        # the `let` that holds the match itself is not a binding of interest
+        pre = body[:mm.start()]
+        pre = pre[:pre.rfind("let ")] if re.search(r"let\s+\w+\s*=\s*$", pre) else pre
+        bind(top_level_lets(pre), env)
+        e = paren_end(body, mm.end() - 1, "{", "}")
+        mbody = body[mm.end():e]
+        pos = 0
+        while True:
+            am = re.compile(r"\(\s*(true|false|_)\s*,\s*(Some\(\s*\w+\s*\)|None|_)\s*\)\s*=>\s*").search(mbody, pos)
+            if not am:
+                break
+            if "_" in (am.group(1), am.group(2)):
+                why.append("wildcard arm in the (disable_https, listener) match")
+                pos = am.end()
+                continue
+            if mbody[am.end()] == "{":
+                ae = paren_end(mbody, am.end(), "{", "}")
+                ab = mbody[am.end() + 1:ae]
+            else:
+                ae = stmt_end(mbody.replace(",", ";"), am.end())   # brace-less arm ends at the next top-level comma
+                ab = mbody[am.end():ae]
+            pos = ae
+            key = (am.group(1) == "true", am.group(2) != "None")
+            try:
+                aenv = dict(env)
+                sp = re.search(r"\bspawn_server\s*\(", ab)
+                if not sp:
+                    raise Bad("no spawn_server(..) call")
+                bind(top_level_lets(ab[:sp.start()]), aenv)
+                args = split_top(ab[sp.end():paren_end(ab, sp.end() - 1)])
+                if len(args) != 4:
+                    raise Bad(f"spawn_server called with {len(args)} arguments")
+                n_header_seen[0] += len(re.findall(r"SetClientIdentityFromHeader", args[3]))
+                server, svc = eval_value(args[1], aenv), eval_value(args[3], aenv)
+                if not svc or svc[0] != "svc":
+                    raise Bad("service argument of spawn_server is not derived from self.router: " + args[3][:60])
+                if not server or server[0] != "server":
+                    raise Bad("server argument of spawn_server is not an axum_server constructor: " + args[1][:60])
+                if server[1] == "rustls-unrecognising":
+                    raise Bad("rustls server without ClientCertRecognizingAcceptor")
+                if server[1] == "tls" and not re.search(r"\brustls_config\(\s*&self\.config,\s*self\.network_config\.vec_peers\(\)\s*\)", ab):
+                    raise Bad("TLS arm does not build its rustls config with rustls_config(&self.config, self.network_config.vec_peers())")
+                if (server[2] in ("from_tcp", "from_tcp_rustls")) != key[1]:
+                    raise Bad(f"arm uses axum_server::{server[2]} although listener is {'given' if key[1] else 'None'}")
+                if key in found:
+                    raise Bad("duplicate arm")
+                found[key] = {"disable_https": key[0], "listener": key[1], "header_layer": svc[1], "tls_acceptor": server[1] == "tls", "recognised": True}
+            except (Bad, ValueError) as ex:
+                why.append(f"arm ({str(key[0]).lower()}, {'Some(listener)' if key[1] else 'None'}): {ex}")
+        if n_header_seen[0] != n_header_src:
+            why.append(f"SetClientIdentityFromHeader occurs {n_header_src} times in start_on but only {n_header_seen[0]} occurrences were understood")
+            found = {}
+    except (Bad, ValueError) as ex:
+        why.append(str(ex))
+    arms = []
+    for d, l in COMBOS:
+        if (d, l) in found:
+            arms.append(found[(d, l)])
+        else:
+            if not any(w.startswith(f"arm ({str(d).lower()}, {'Some(listener)' if l else 'None'})") for w in why):
+                why.append(f"arm ({str(d).lower()}, {'Some(listener)' if l else 'None'}) not recognised")
+            # fallback: what the property demands, flagged, so that the model stays executable
+            arms.append({"disable_https": d, "listener": l, "header_layer": d, "tls_acceptor": not d, "recognised": False})
+    return arms, why, n_header_seen[0]
+
+
 def extract():
     try:
         consts = http_serde_paths()
@@ -362,40 +621,49 @@ def extract():
     rel = "net/server/mod.rs"
     raw = read(rel)
     t = strip_comments(cut_tests(raw))
-    arms = []
-    m = re.search(r"match \(self\.config\.disable_https, listener\)\s*\{", t)
-    if not m:
-        fail("routes.start_on", "match (self.config.disable_https, listener) not found in start_on")
-        return {}
-    e = paren_end(t, m.end() - 1, "{", "}")
-    body = t[m.end():e]
-    for am in re.finditer(r"\((true|false),\s*(Some\(listener\)|None)\)\s*=>\s*\{", body):
-        ae = paren_end(body, am.end() - 1, "{", "}")
-        ab = body[am.end():ae]
-        arms.append({
-            "disable_https": am.group(1) == "true",
-            "listener": am.group(2) != "None",
-            "header_layer": bool(re.search(r"\.layer\(layer_fn\(SetClientIdentityFromHeader::<_,\s*F>::new\)\)", ab)),
-            "tls_acceptor": bool(re.search(r"ClientCertRecognizingAcceptor::new", ab)) and bool(re.search(r"(from_tcp_rustls|bind_rustls)", ab)),
-        })
-    m0 = re.search(r"match \(self\.config\.disable_https, listener\)", raw)
+    arms, why, n_understood = start_on_arms(t)
+    # census over net/server/** (non-test code): the header layer is constructed nowhere but at the
+    # sites understood inside start_on, and request extensions are inserted in exactly two places
+    n_ctor, n_ins = 0, 0
+    for root, _, fns in os.walk(os.path.join(SRC, "net/server")):
+        for fn in sorted(fns):
+            if fn.endswith(".rs"):
+                ft = strip_comments(cut_tests(read(os.path.relpath(os.path.join(root, fn), SRC))))
+                n_ctor += len(re.findall(r"SetClientIdentityFromHeader\s*::\s*(?:<[^>]*>\s*::\s*)?new\b|SetClientIdentityFromHeader\s*\{\s*inner", ft))
+                n_ins += len(re.findall(r"extensions_mut\(\)", ft))
+    if n_ctor != n_understood:
+        why.append(f"SetClientIdentityFromHeader is constructed at {n_ctor} sites under net/server but only {n_understood} are understood (inside start_on)")
+    for w in why:
+        fail("routes.start_on", w)
+    m0 = re.search(r"match \(self\.config\.disable_https, listener\)", raw) or re.search(r"pub async fn start_on", raw) or re.search(r"mod ", raw)
     record("routes.start_on", rel, raw, m0, arms)
-    if len(arms) != 4 or len({(a["disable_https"], a["listener"]) for a in arms}) != 4:
-        fail("routes.start_on", f"expected the four (disable_https, listener) arms, found {len(arms)}")
-        return {}
+    setup, swhy = tls_setup(t)
+    for w in swhy:
+        fail("routes.tls_setup", w)
+    record("routes.tls_setup", rel, raw, re.search(r"async fn rustls_config", raw) or m0, setup)
     # the only places that may insert a ClientIdentity extension
     ins = re.findall(r"extensions_mut\(\)\s*\.insert\(", t)
-    record("routes.identity_inserts", rel, raw, re.search(r"extensions_mut\(\)", raw), len(ins))
-    if len(ins) != 2:
-        fail("routes.identity_inserts", f"expected exactly 2 places inserting request extensions in net/server/mod.rs (certificate, header), found {len(ins)}")
+    record("routes.identity_inserts", rel, raw, re.search(r"extensions_mut\(\)", raw), {"mod.rs": len(ins), "net/server/**": n_ins})
+    if len(ins) != 2 or n_ins != 2:
+        fail("routes.identity_inserts", f"expected exactly 2 places touching request extensions under net/server (certificate, header; both in mod.rs), found {len(ins)} in mod.rs, {n_ins} in total")
     # HelperAuthentication: extension present ? forward : 401
     qraw = read(H + "/query/mod.rs")
     qt = strip_comments(cut_tests(qraw))
-    ma = re.search(r"match req\.extensions\(\)\.get::<ClientIdentity<F::Identity>>\(\)\s*\{\s*Some\(ClientIdentity\(_\)\) => self\.inner\.call\(req\)\.left_future\(\),\s*None => ready\(Ok\(\(\s*StatusCode::UNAUTHORIZED,", qt)
-    if ma:
-        record("routes.auth_layer", H + "/query/mod.rs", qraw, re.search(r"fn call\(&mut self, req: Request<B>\)", qraw), "extension present ? forward : 401")
+    # the whole body of HelperAuthentication::call must be the single match
+    ok_shape = False
+    mi = re.search(r"impl<[^>]*>\s*Service<Request<B>>\s*for\s*HelperAuthentication<S,\s*F>", qt)
+    mc = re.search(r"fn call\s*\(\s*&mut self\s*,\s*(mut\s+)?req\s*:\s*Request<B>\s*\)\s*->\s*Self::Future\s*\{", qt[mi.end():]) if mi else None
+    if mc:
+        c0 = mi.end() + mc.end() - 1
+        cbody = re.sub(r"\s+", "", qt[c0 + 1:paren_end(qt, c0, "{", "}")])
+        ok_shape = mc.group(1) is None and re.fullmatch(
+            r"matchreq\.extensions\(\)\.get::<ClientIdentity<F::Identity>>\(\)\{"
+            r"Some\(ClientIdentity\(_\)\)=>self\.inner\.call\(req\)\.left_future\(\),"
+            r"None=>ready\(Ok\(\(StatusCode::UNAUTHORIZED,\"[^\"]*\",?\)\.into_response\(\)\)\)\.right_future\(\),?\}", cbody) is not None
+    if ok_shape:
+        record("routes.auth_layer", H + "/query/mod.rs", qraw, re.search(r"for HelperAuthentication<S, F>", qraw) or re.search(r"HelperAuthentication", qraw), "extension present ? forward : 401")
     else:
-        fail("routes.auth_layer", "HelperAuthentication::call no longer has the shape `Some(ClientIdentity(_)) => inner.call(req), None => 401`")
+        fail("routes.auth_layer", "HelperAuthentication::call no longer has the shape `match extension { Some(ClientIdentity(_)) => inner.call(req), None => 401 }`")
 
     L = []
     L.append("import IpaVerif.Model.AuthTypes")
@@ -406,12 +674,16 @@ def extract():
     for name in ("queryRouter", "h2hRouter", "s2sRouter", "mpcRouter", "shardRouter"):
         L.append(f"def {name} : RouterExpr :=\n  {defs[name]}")
         L.append("")
-    L.append("/-- arms of `start_on`: (disable_https, listener given, installs SetClientIdentityFromHeader, uses the TLS acceptor) -/")
+    L.append("/-- arms of `start_on`: (disable_https, listener given, the service handed to spawn_server is wrapped in SetClientIdentityFromHeader, the server uses the TLS acceptor, arm recognised by the translator) -/")
     L.append("def startOnArms : List StartArm := [")
     L.append(",\n".join(
-        f"  {{ disableHttps := {str(a['disable_https']).lower()}, listener := {str(a['listener']).lower()}, headerLayer := {str(a['header_layer']).lower()}, tlsAcceptor := {str(a['tls_acceptor']).lower()} }}"
+        f"  {{ disableHttps := {str(a['disable_https']).lower()}, listener := {str(a['listener']).lower()}, headerLayer := {str(a['header_layer']).lower()}, tlsAcceptor := {str(a['tls_acceptor']).lower()}, recognised := {str(a['recognised']).lower()} }}"
         for a in arms))
     L.append("]")
+    L.append("")
+    b = lambda x: str(bool(x)).lower()
+    L.append("/-- `rustls_config`: trust anchors are exactly the peers' certificates; `allow_unauthenticated`; the verifier is installed in the server config -/")
+    L.append(f"def tlsSetup : TlsSetup :=\n  {{ anchorsFromPeers := {b(setup['anchors_from_peers'])}, clientAuthOptional := {b(setup['client_auth_optional'])}, verifierInstalled := {b(setup['verifier_installed'])}, recognised := {b(setup['recognised'])} }}")
     L.append("")
     L.append("end IpaVerif.Generated.Routes")
     return {"Routes.lean": "\n".join(L) + "\n"}
